@@ -10,6 +10,7 @@ import (
 	"github.com/zishang520/engine.io-go-parser/packet"
 	"github.com/zishang520/engine.io/v2/log"
 	"github.com/zishang520/engine.io/v2/types"
+	"github.com/zishang520/engine.io/v2/vhook"
 )
 
 var ws_log = log.NewLog("engine:ws")
@@ -128,6 +129,7 @@ func (w *websocket) Send(packets []*packet.Packet) {
 	go w.send(packets)
 }
 func (w *websocket) send(packets []*packet.Packet) {
+	vhook.Yield("ws.send.start")
 	defer func() {
 		w.Emit("drain")
 		w.SetWritable(true)
